@@ -441,3 +441,66 @@ ALSO = {
 for _m in MUTANTS:
     if _m["id"] in ALSO and _m.get("rule") is not None:
         _m["rule"] = ([_m["rule"]] if isinstance(_m["rule"], str) else list(_m["rule"])) + [r for r in ALSO[_m["id"]] if r not in ([_m["rule"]] if isinstance(_m["rule"], str) else _m["rule"])]
+
+# firing mutants on top of the stored round-3 refactors (and silent twins): the fact-level rules decide rewritten code too
+import os as _os
+
+_P = _os.path.join(_os.path.dirname(_os.path.abspath(__file__)), "patches")
+B14 = dict(base="C01-r4")  # crossing helper + uncached __conflict_graph(regions) + FCFS with a set of taken orders
+A(M("c01e-r4-fcfs-range", ["C01", "C13"], C, "                for j in range(i)\n                if BpSeq.__is_pseudoknot(regions[i], regions[j])", "                for j in range(i - 1)\n                if BpSeq.__is_pseudoknot(regions[i], regions[j])", "fcfs-first-fit", **B14))
+A(M("c01e-r4-fcfs-levels", ["C01", "C13"], C, 'levels = len("([{<" + string.ascii_uppercase)', "levels = len(string.ascii_uppercase)", "fcfs-levels", **B14))
+A(M("c01e-r4-graph-oneway", ["C01", "C02", "C16"], C, "            graph[i].add(j)\n            graph[j].add(i)\n\n        return graph", "            graph[i].add(j)\n\n        return graph", "conflict-graph-fact", **B14))
+A(M("c01e-r4-pred-encloses", ["C01", "C13"], C, "        return m < k < n < l\n", "        return m < k < l < n\n", ["fcfs-first-fit", "conflict-graph-fact"], **B14))
+A(M("c01e-r4-guard-flip", ["C01", "C02", "C16"], C, "            if not BpSeq.__is_pseudoknot(regions[i], regions[j]):\n                continue", "            if BpSeq.__is_pseudoknot(regions[i], regions[j]):\n                continue", "conflict-graph-fact", **B14))
+A(M("c01e-r4-min-silent", ["C01", "C13", "C02", "C16"], C, "next(order for order in range(levels) if order not in taken)", "min(order for order in range(levels) if order not in taken)", kind="silent", **B14))
+A(M("c01e-r4-pred-or-silent", ["C01", "C02", "C13", "C16"], C, "        if k < m < l < n:\n            return True\n        return m < k < n < l\n", "        return (m < k < n < l) or (k < m < l < n)\n", kind="silent", **B14))
+B13 = dict(base="C01-r3")  # __stems_entries with itertools.groupby over the diagonal key, __regions as a loop
+A(M("c01e-r3-diagonal", ["C01", "C16"], C, "return entry.index_ - position, entry.pair + position", "return entry.index_ - position, entry.pair - position", "stems-run-fact", **B13))
+A(M("c01e-r3-diagonal-half", ["C01", "C02"], C, "return entry.index_ - position, entry.pair + position", "return entry.index_ - position", "stems-run-fact", **B13))
+A(M("c01e-r3-regions-last", ["C01", "C02"], C, "            outermost = stem_entries[0]\n", "            outermost = stem_entries[-1]\n", "region-triple", **B13))
+A(M("c01e-r3-source", "C01", C, "enumerate(self.paired(only5to3=True)), key=diagonal", "enumerate(self.paired()), key=diagonal", "stems-source", **B13))
+A(M("c01e-r3-diagonal-silent", ["C01", "C02", "C07", "C16"], C, "return entry.index_ - position, entry.pair + position", "return position - entry.index_, position + entry.pair", kind="silent", **B13))
+B164 = dict(base="C16-r4")  # greedy colouring with `placed` / `taken` / while-search, product merged into a list
+A(M("c16e-r4-placed", ["C16", "C01"], C, "                    orders[region] = order\n                    placed.append(region)\n", "                    orders[region] = order\n", "enumeration-fact", **B164))
+A(M("c16e-r4-adjacent-neg", ["C16", "C01"], C, "for other in placed if other in graph[region]", "for other in placed if other not in graph[region]", "enumeration-fact", **B164))
+A(M("c16e-r4-while-from-1", "C16", C, "                    order = 0\n                    while order in taken:", "                    order = 1\n                    while order in taken:", "enumeration-fact", **B164))
+A(M("c16e-r4-chain-first", "C16", C, "for region, order in itertools.chain.from_iterable(assignment):", "for region, order in assignment[0]:", "enumeration-fact", **B164))
+A(M("c16e-r4-count-silent", ["C16", "C01"], C, "                    order = 0\n                    while order in taken:\n                        order += 1\n", "                    order = next(k for k in itertools.count() if k not in taken)\n", kind="silent", **B164))
+B163 = dict(base="C16-r3")  # __conflicted / __conflict_graph(enumerate pairs) / __connected_components(visited set, next())
+A(M("c16e-r3-pop-always", ["C16", "C01"], C, "                if next_vertex is None:\n                    stack.pop()\n                    continue\n", "                stack.pop()\n                if next_vertex is None:\n                    continue\n", "enumeration-fact", **B163))
+A(M("c16e-r3-no-mark", "C16", C, "                visited.add(next_vertex)\n                stack.append(next_vertex)\n", "                stack.append(next_vertex)\n", "enumeration-fact", **B163))
+A(M("c16e-r3-keys-silent", ["C16", "C01"], C, "for vertex in list(graph.keys()):", "for vertex in list(graph):", kind="silent", **B163))
+B23 = dict(base="C02-r3")  # model built by one dict comprehension, weight() helper, itertools.product constraints
+A(M("c02e-r3-weight-flat", "C02", C, "return length if order == 0 else -length * order", "return length if order == 0 else -length", "milp-objective-coeff", **B23))
+A(M("c02e-r3-weight-double", "C02", C, "return length if order == 0 else -length * order", "return 2 * length if order == 0 else -length * order", "milp-objective-coeff", **B23))
+A(M("c02e-r3-bound", "C02", C, "max_order = max(map(len, graph.values())) + 1", "max_order = max(map(len, graph.values()))", "milp-bound", **B23))
+A(M("c02e-r3-one-level-le", "C02", C, "                pulp.lpSum(var_by_region_order[(i, order)] for order in range(max_order))\n                == 1", "                pulp.lpSum(var_by_region_order[(i, order)] for order in range(max_order))\n                <= 1", "milp-one-level", **B23))
+A(M("c02e-r3-product-levels", "C02", C, "itertools.product(neighbours, range(max_order))", "itertools.product(neighbours, range(1, max_order))", "milp-adjacency", **B23))
+A(M("c02e-r3-continuous", "C02", C, 'pulp.LpVariable(f"x_{i}_{order}", 0, 1, pulp.LpInteger)', 'pulp.LpVariable(f"x_{i}_{order}", 0, 1)', "milp-binary", **B23))
+A(M("c02e-r3-scale-silent", "C02", C, "return length if order == 0 else -length * order", "return 2 * length if order == 0 else -2 * length * order", kind="silent", **B23))
+A(M("c02e-r3-once-silent", "C02", C, "            for j, order in itertools.product(neighbours, range(max_order)):\n", "            for j, order in itertools.product(neighbours, range(max_order)):\n                if j < i:\n                    continue\n", kind="silent", **B23))
+B133 = dict(base="C13-r3")  # guard-clause decode `_, i, order = name.split('_')`, product constraints, conditional-expression objective
+A(M("c13e-r3-decode-swap", "C02", C, '_, i, order = variable.getName().split("_")', '_, order, i = variable.getName().split("_")', "milp-readback", **B133))
+A(M("c13e-r3-decode-digit", "C02", C, "            orders[int(i)] = int(order)\n", "            orders[int(i)] = int(order[-1])\n", "milp-readback", **B133))
+A(M("c13e-r3-continue-flip", ["C02", "C13"], C, "            if variable.varValue != 1:\n                continue\n", "            if variable.varValue == 1:\n                continue\n", ["milp-readback", "returns-dotbracket"], **B133))
+B134 = dict(base="C13-r4")  # dot_bracket with a conditional expression + guard clause, fill with `for offset`, FCFS over enumerate(regions[:i])
+A(M("c13e-r4-none-guard", "C13", C, "        if solver is None:\n            return self.convert_to_dot_bracket(None)\n        solver.msg = False\n", "        solver.msg = False\n", "solver-none-guard", **B134))
+A(M("c13e-r4-fcfs-slice", ["C13", "C01"], C, "for j, (m, n, _) in enumerate(regions[:i])", "for j, (m, n, _) in enumerate(regions[: i - 1])", "fcfs-first-fit", **B134))
+A(M("c13e-r4-fill-offset", ["C01", "C13"], C, "structure[k - offset - 1] = closing", "structure[k - offset] = closing", "fill-stores", **B134))
+A(M("c13e-r4-skip0-silent", ["C13", "C01"], C, "            if i == 0:\n                continue\n\n", "", kind="silent", **B134))
+B124 = dict(base="C12-r4")  # enumerate(sequence, 1), guard-clause __post_init__, two-branch paired(), stems[-1] as the open run, comprehension to_unpair
+A(M("c12e-r4-one-end", "C12", C, "            for strand in (stem.strand5p, stem.strand3p)\n", "            for strand in (stem.strand5p,)\n", "isolated-select", **B124))
+A(M("c12e-r4-upper", ["C12", "C01"], C, "Entry(number, letter, 0)", "Entry(number, letter.upper(), 0)", ["derived-sequence", "derived-structure", "from-db-fact"], **B124))
+A(M("c12e-r4-enumerate-0", ["C01", "C12"], C, "enumerate(dot_bracket.sequence, 1)", "enumerate(dot_bracket.sequence)", ["from-db-fact", "derived-structure"], **B124))
+A(M("c12e-r4-pairs-guard", "C01", C, "            if j == 0:\n                continue\n            self.pairs[i] = j", "            if j != 0:\n                continue\n            self.pairs[i] = j", "bpseq-pairs-fact", **B124))
+A(M("c12e-r4-pairs-swapped", "C01", C, "            self.pairs[i] = j\n            self.pairs[j] = i\n", "            self.pairs[j] = j\n            self.pairs[i] = i\n", "bpseq-pairs-fact", **B124))
+A(M("c12e-r4-pairs-once-silent", "C01", C, "            self.pairs[i] = j\n            self.pairs[j] = i\n", "            self.pairs[i] = j\n", kind="silent", **B124))  # both ends of a pair are entries: each end writes its own key
+A(M("c12e-r4-run-extend", ["C01", "C07"], C, "                if i == k + 1 and j == l - 1:\n                    stems[-1].append(entry)", "                if i == k + 1 or j == l - 1:\n                    stems[-1].append(entry)", "stems-run-fact", **B124))
+A(M("c12e-r4-len-silent", ["C12", "C01", "C07"], C, "            if stems:\n", "            if len(stems) > 0:\n", kind="silent", **B124))
+# call histories: a conflict graph shared through a cached property is fine as long as nobody writes to it (C01-g / C12-e write)
+MUTANTS.append(dict(id="c01e-shared-graph-silent", props=["C01", "C02", "C12", "C16"], patch=_os.path.join(_P, "shared-graph-readonly.diff"), kind="silent", rule=None))
+# without_isolated: the derived object must be consistent with itself (clean tree)
+A(M("c12e-stale-pairs", "C12", C, "        entries = [\n            Entry(entry.index_, entry.sequence, entry.pair) for entry in self.entries\n        ]\n        for i in to_unpair:\n            entries[i].pair = 0\n\n        return BpSeq(entries)", "        result = BpSeq([Entry(entry.index_, entry.sequence, entry.pair) for entry in self.entries])\n        for i in to_unpair:\n            result.entries[i].pair = 0\n        return result", "derived-consistent"))
+A(M("c12e-adjacent-pair", "C12", C, "            if stem.strand5p.first == stem.strand5p.last:\n                to_unpair", "            if stem.strand5p.first == stem.strand5p.last and stem.strand3p.first - stem.strand5p.first > 1:\n                to_unpair", "isolated-select"))
+# a size cap is outside what the evaluated classes reach: the fact rule must not claim it, the pinned rule decides
+A(M("c16e-size-cap", "C16", C, "            for permutation in itertools.permutations(component):\n", "            for permutation in (itertools.permutations(component) if len(component) < 7 else [tuple(component)]):\n", ["greedy-perms", "enumeration-fact"]))
